@@ -20,6 +20,7 @@ CONSTANTS MaxNodes, MaxDepth,
           XKinds,      \* subset of {"none","hook","cons","chan"}
           SubChoices,  \* include targets, e.g. {"s1","smissing"}
           AllowPoison, \* BOOLEAN
+          PuKinds,     \* subset of {"name","var","cons","bind","conn","load"}: positions of an unterminated "{{"
           RootKinds,   \* subset of {"plain","flag","lst","both","cards","cardsab","itvar","itdef","itcards"}: defaults / vars of the root
           ShadowKinds, \* subset of {"fresh","same"}: variable of a NESTED iterator: a new name (jt) / the enclosing iterator's name
           UvKinds,     \* subset of {"none","flagoff","lstb","lstbad"}: user variables
@@ -106,14 +107,14 @@ VsOf(vk, sc) ==
     [] OTHER -> <<>>
 Initial(k) == CASE k = "agg" -> "a" [] k = "task" -> "t" [] k = "call" -> "c" [] k = "inc" -> "i" [] OTHER -> "z"
 
-Poisoned == \E i \in 1..Len(T) : T[i].ps
+Poisoned == \E i \in 1..Len(T) : T[i].ps \/ T[i].pu # ""
 
 RECURSIVE Dedupe(_)
 Dedupe(q) == IF q = <<>> THEN <<>>
              ELSE LET r == Dedupe(SubSeq(q, 1, Len(q) - 1))
                   IN IF \E i \in 1..Len(r) : r[i] = q[Len(q)] THEN r ELSE Append(r, q[Len(q)])
 
-G_Add(par, k, fk, ek, vk, x, ps, sub, sh) ==
+G_Add(par, k, fk, ek, vk, x, ps, sub, sh, pu) ==
   /\ Len(T) < MaxNodes
   /\ par \in RightmostAggs(T)
   /\ DepthOf(T, par) < MaxDepth
@@ -128,12 +129,16 @@ G_Add(par, k, fk, ek, vk, x, ps, sub, sh) ==
         /\ ek \in {"iteq", "itne"} => sc2 # <<>>
         /\ vk = "flagit" => sc2 # <<>>
         /\ x \in {"hook", "chan"} => k \in {"task", "call"}
-        /\ x = "cons" => k # "inc"
+        /\ x \in {"cons", "bind", "bindp", "conn"} => k # "inc"
+        /\ pu # "" => (~ps /\ ~Poisoned)
+        /\ pu \in {"cons", "bind", "conn"} => k # "inc"
+        /\ pu = "load" => k = "task"
         /\ (k = "inc") <=> (sub # "")
         /\ ps => (AllowPoison /\ ~Poisoned)
-        /\ T' = Append(T, Nd(par, k, Initial(k) \o ToString(Len(T) + 1),
+        /\ T' = Append(T, [Nd(par, k, Initial(k) \o ToString(Len(T) + 1),
                              Dedupe([q \in 1..Len(sc2) |-> sc2[q][1]]), EnOf(ek, sc2), VsOf(vk, sc2), <<>>,
-                             ps, x, sub, IF fk = "none" THEN <<>> ELSE <<ForSpec(fk, myvar, IF sc = <<>> THEN "" ELSE sc[Len(sc)][1])>>))
+                             ps, x, sub, IF fk = "none" THEN <<>> ELSE <<ForSpec(fk, myvar, IF sc = <<>> THEN "" ELSE sc[Len(sc)][1])>>)
+                            EXCEPT !.pu = pu])
   /\ UNCHANGED <<uv, sp>>
 
 GenInit ==
@@ -143,8 +148,8 @@ GenInit ==
 
 GenNext ==
   \E par \in 1..MaxNodes, k \in Kinds, fk \in ForKinds, ek \in EnKinds, vk \in VarKinds, x \in XKinds,
-     ps \in BOOLEAN, sub \in SubChoices \cup {""}, sh \in {"fresh", "same"} :
-       (sh \in ShadowKinds \/ sh = "fresh") /\ G_Add(par, k, fk, ek, vk, x, ps, sub, sh)
+     ps \in BOOLEAN, sub \in SubChoices \cup {""}, sh \in {"fresh", "same"}, pu \in PuKinds \cup {""} :
+       (sh \in ShadowKinds \/ sh = "fresh") /\ G_Add(par, k, fk, ek, vk, x, ps, sub, sh, pu)
 
 GenSpec == GenInit /\ [][GenNext]_gvars
 
@@ -184,7 +189,7 @@ Inv_NoEmpty == \A q \in 1..Len(Flat(LI.out)) :
                  Flat(LI.out)[q].k \in {"agg", "inc"} => Flat(LI.out)[q].ch # <<>>
 
 \* a poisoned role is never part of a returned tree
-NoPoisonIn(r) == \A q \in 1..Len(Flat(r.out)) : ~Src(Flat(r.out)[q]).ps
+NoPoisonIn(r) == \A q \in 1..Len(Flat(r.out)) : ~Src(Flat(r.out)[q]).ps /\ Src(Flat(r.out)[q]).pu = ""
 Inv_Poison == NoPoisonIn(LI) /\ NoPoisonIn(LIter) /\ NoPoisonIn(LMask) /\ NoPoisonIn(LAsIs)
 
 \* the deviation never turns an error into a tree or vice versa, and is invisible without iterators
@@ -231,7 +236,7 @@ Inv_Bound == \A q \in 1..Len(Flat(LI.out)) :
 RECURSIVE Mult(_)
 Mult(i) == IF i = 0 THEN 1
            ELSE (IF T[i].for = <<>> THEN 1 ELSE Len(RangeOf(T[i].for[1], EmptyMap))) * Mult(T[i].par)
-Plain == \A i \in 1..Len(T) : /\ T[i].en[1] = "T" /\ ~T[i].ps /\ T[i].k # "inc"
+Plain == \A i \in 1..Len(T) : /\ T[i].en[1] = "T" /\ ~T[i].ps /\ T[i].pu = "" /\ T[i].k # "inc"
                               /\ (T[i].for # <<>> => Literal(T[i].for[1]))
                               /\ \A q \in 1..Len(T[i].vs) : T[i].vs[q][2] = "lit"
 Inv_Complete == Plain =>
@@ -244,7 +249,7 @@ Inv_Complete == Plain =>
 (* elements of the range resolved in nd's OWN environment - per outer element, not once per template *)
 RootMap == MapOf(T[1].ds, EmptyMap)
 EnvAt(nd) == PairsMap(nd.st) @@ PairsMap(uv) @@ RootMap   \* only the root and uv define non-probed variables here
-SimpleLeaf(j) == T[j].k \in {"task", "call"} /\ T[j].en[1] = "T" /\ ~T[j].ps
+SimpleLeaf(j) == T[j].k \in {"task", "call"} /\ T[j].en[1] = "T" /\ ~T[j].ps /\ T[j].pu = ""
 PerOuterOk(r) ==
   ~r.err => \A q \in 1..Len(Flat(r.out)) :
     LET nd == Flat(r.out)[q] IN
@@ -274,4 +279,15 @@ InnermostWins(s) ==
     /\ InnermostWins(s[q].ch)
 Inv_InnermostWins == InnermostWins(LI.out)
 \* (that the instance itself is bound to the element, not to an enclosing definition of the name, is Inv_Bound)
+
+(* channels: the bind aliases / connect targets of an instance of an iterator's template role (or of a role   *)
+(* nested in it) carry THAT instance's element: two instances of the same template node bound to different   *)
+(* elements never have the same iteration-dependent alias / target                                            *)
+PerInstanceChannels(r) ==
+  \A p, q \in 1..Len(Flat(r.out)) :
+    LET a == Flat(r.out)[p] b == Flat(r.out)[q] IN
+      (p < q /\ a.src = b.src /\ a.src[1] = "" /\ Src(a).x \in {"bind", "conn"} /\ Src(a).np # <<>>
+         /\ [z \in 1..Len(Src(a).np) |-> LookupSt(a.st, Src(a).np[z])] # [z \in 1..Len(Src(b).np) |-> LookupSt(b.st, Src(b).np[z])])
+        => (a.bd # b.bd \/ a.cn # b.cn)
+Inv_Channels == PerInstanceChannels(LI)
 =============================================================================
